@@ -9,8 +9,8 @@
    `ref_exception r pdu = Some c` is "pdu is a well-formed exception reply with code c".
    pdu is an unbounded list of arbitrary numbers (the 253-byte bound is not needed). *)
 From Coq Require Import NArith List Arith.
-From Rodbus Require Import Base.Outcome Base.ClientTypes Model.ClientRequest Spec.ClientCodecSpec
-  Proofs.ClientReplyProofs Gen.ClientTables.
+From Rodbus Require Import Base.Outcome Base.ClientTypes Model.ClientRequest Model.ClientPaths Spec.ClientCodecSpec
+  Proofs.ClientReplyProofs Proofs.ClientPathsProofs Gen.ClientTables.
 Import ListNotations.
 Local Open Scope N_scope.
 
@@ -87,6 +87,21 @@ Print Assumptions C04_otherwise.
 Theorem C04_total : forall r pdu, request_wf r -> handle_response r pdu <> Panic.
 Proof. exact response_total. Qed.
 Print Assumptions C04_total.
+
+(* The callback APIs (CallbackSession, FfiChannel) hand read callbacks the iterator instead of the
+   collected Vec. Driving RegisterIterator::next to exhaustion (`bytes.get(pos..pos+2)`,
+   `(high << 8) | low`, index `pos + start`) yields exactly what the Channel path's collect_vec
+   yields; bit reads use BitIterator::next on both paths; writes pass the parsed echo. So for a
+   reply made of bytes every theorem above holds for what a callback computes. *)
+Theorem C04_paths_agree : forall r pdu, request_wf r -> Forall is_u8 pdu ->
+  handle_response_iter r pdu = handle_response r pdu.
+Proof. exact handle_response_iter_eq. Qed.
+Print Assumptions C04_paths_agree.
+
+Theorem C04_paths_deliver_same : forall p q r pdu, request_wf r -> Forall is_u8 pdu ->
+  deliver_via p r pdu = deliver_via q r pdu.
+Proof. exact deliver_via_eq. Qed.
+Print Assumptions C04_paths_deliver_same.
 
 (* every request the API constructs from u16 arguments is well-formed - including read requests
    given an arbitrary (start, count) struct literal, which limited_count validates *)
